@@ -841,6 +841,10 @@ def run_rx(ctx, h, model, cases, nproc=16):
             for nm, wbu, perl in (("ref", 0, 0), ("refw", 1, 0), ("refp", 0, 1), ("refwp", 1, 1)):
                 mlines.append("ref %s %s %d %d %d %s" % (fl or "-", hx(subj), ncap, wbu, perl, toks))
                 mkey.append((i, nm))
+        for (tag, st, lim, stk) in d["_reqs"]:
+            for tname in ("tbl", "tbl2") + (("tblr",) if hasre2 else ()):
+                mlines.append("iter %s %s %d %d %d %s" % (fl or "-", hx(subj), st, lim, 1 if stk else 0, d[tname]))
+                mkey.append((i, (tag, tname)))
     mres = {}
     if model and mlines:
         mo = run_sharded([model], mlines, 4, 600, 60)
@@ -1100,6 +1104,14 @@ def run_rx(ctx, h, model, cases, nproc=16):
                             sig = "engine:regexp2-wordboundary-unicode-letters"      # reproduced exactly by switching the word-character set
                         elif lin_ok and has_negdigit_class(ast):
                             sig = "engine:regexp2-class-with-negated-digit"    # linear engine = reference exactly; regexp2 deviates on a [..\\D..] class
+                        elif lin_ok and "u" not in fl and any(
+                                isinstance(lin[i2], list) and any(0 < x < n and 0xD800 <= subj[x - 1] <= 0xDBFF and 0xDC00 <= subj[x] <= 0xDFFF for x in lin[i2][:2])
+                                for i2 in diff_at):
+                            sig = "engine:regexp2-match-inside-surrogate-pair"   # linear = reference; the match starts/ends between the halves of a pair
+                        elif lin_ok and "u" not in fl and same(refs["ref"], lin):
+                            # three-way arbitration: reference and linear engine agree exactly, regexp2 deviates.  Only without the u flag,
+                            # where goja's glue around regexp2 copies rune indices unchanged (findSubmatchIndexUTF16).
+                            sig = "engine:regexp2-deviates-nonunicode"
                         elif span_diff:
                             sig = "engine:span:unexplained"
                         elif cap_diff <= set(render_lean(ast, "u" in fl)[2]) and (same(refs["ref"], r2) or same(refs["refp"], r2) or same(refs["ref"], lin) or same(refs["refp"], lin)):
@@ -1196,7 +1208,7 @@ def main(ctx):
     run_syntax(ctx, h)
 
     # ---- rx: corpus first, then generated (70 % outside the circumstances of the known divergences)
-    n_cases = 500 if thorough else 70
+    n_cases = 2000 if thorough else 220
     cases = corpus_cases() + corp_cases
     for i in range(n_cases):
         c = gen_case(rng, i)
